@@ -371,7 +371,7 @@ def expect_context(ctx, direct, goal, num):
             return None                                   # parsed as an indirect period
         v = val(num)
         if isinstance(v, complex):
-            return "ERR TypeError"                        # max(0.0, complex): defect D8 (property C14)
+            return None                                   # a complex period is rejected (how: property C14, defect D8)
         return canon_value(max(0.0, v))
     if ctx == "timeout":
         if num == "ERR":
@@ -505,7 +505,7 @@ class CHECK(core.Check):
             for line in out[11:]:
                 _, ctx, got = line.split(" ", 2)
                 e = expect_context(ctx, d, g, nm)
-                if e is not None and got != e and not (ctx == "bid" and e == "ERR TypeError"):
+                if e is not None and got != e:
                     return "context %s: literal %r arrives as %s; the documented conversion gives %s" % (ctx, t, got, e)
         return None
 
